@@ -340,7 +340,7 @@ func TestP1Decode(t *testing.T) {
 		f.Encoding[66] = ".notdef"
 	})
 	opts.NoOddZones = probe(rec, "C09-zone-offset", func(f *type1.Font) { f.CreationDate = t1gen.ParseDate("2020-02-03 04:05:06 +0000 UTC").In(t1gen.FixedZone(5*3600 + 45*60)) })
-	ev.SetupRapid(2400, 80000)
+	ev.SetupRapid(12000, 400000)
 	rapid.Check(t, func(t *rapid.T) {
 		f, feat := t1gen.GenFont(t, opts)
 		nt := len(f.Glyphs) >= 2 && (feat["curve"] || feat["fractional"] || feat["escaped-string-byte"])
